@@ -245,7 +245,7 @@ class Run:
             return None
         return out
 
-    def stream(self, name, n, extra=(), seed_offset=0, timeout=1800, model=None, race=False):
+    def stream(self, name, n, extra=(), seed_offset=0, timeout=1800, model=None, race=False, env=None):
         """run one harness stream (binary cmd/<name>), then the model driver on its op lines, compare line by line"""
         hb = self.build_harness(name, race=race)
         if not hb:
@@ -254,7 +254,7 @@ class Run:
         tag = name + ("".join(extra)) + ("-%d" % seed_offset if seed_offset else "")
         d = self.scratch / ("s-" + re.sub(r"[^A-Za-z0-9_.-]", "_", tag))
         rc, txt = sh([str(hb), "-seed", str(self.seed + seed_offset), "-n", str(n), "-out", str(d)] + list(extra),
-                     cwd=str(self.scratch), env=dict(GOENV, VERIF_SCRATCH=str(self.scratch), VERIF_REPO=str(REPO), VERIF_TIER=self.tier), timeout=timeout)
+                     cwd=str(self.scratch), env=dict(GOENV, VERIF_SCRATCH=str(self.scratch), VERIF_REPO=str(REPO), VERIF_TIER=self.tier, **(env or {})), timeout=timeout)
         if rc != 0:
             self.problems.append(Problem("direct", "harness:" + name, "harness stream crashed (rc=%d):\n%s" % (rc, txt[-3000:]), concrete=False))
             return None
